@@ -44,6 +44,7 @@ from concurrent.futures import Future, ProcessPoolExecutor, as_completed
 from pathlib import Path
 
 from src.core.base import BaseLintContext, BaseLintRule
+from src.core.linter_utils import is_ignored_path, relative_to_root
 from src.core.registry import RuleRegistry
 from src.core.types import Violation
 from src.linter_config.ignore import get_ignore_parser
@@ -383,7 +384,7 @@ class Orchestrator:  # thailint: ignore[srp]
 
         # Call finalize() on all rules after processing all files
         for rule in self.registry.list_all():
-            violations.extend(rule.finalize())
+            violations.extend(self._drop_linter_ignored(rule.finalize()))
 
         return violations
 
@@ -404,7 +405,8 @@ class Orchestrator:  # thailint: ignore[srp]
             if self._is_rule_disabled(rule):
                 continue
             rule_violations = self._safe_check_rule(rule, context)
-            violations.extend(self._drop_suppressed(rule_violations, context))
+            kept = self._drop_suppressed(rule_violations, context)
+            violations.extend(self._drop_linter_ignored(kept))
         return violations
 
     def _is_rule_disabled(self, rule: BaseLintRule) -> bool:
@@ -413,14 +415,39 @@ class Orchestrator:  # thailint: ignore[srp]
         The section is named after the rule id prefix, spelled with hyphens or underscores
         (plus the documented alternative section names).
         """
-        prefix = rule.rule_id.split(".")[0]
+        return any(section.get("enabled") is False for section in self._rule_sections(rule.rule_id))
+
+    def _rule_sections(self, rule_id: str) -> list[dict]:
+        """Configuration sections of the linter a rule id belongs to (every accepted spelling)."""
+        prefix = rule_id.split(".")[0]
         names = [prefix, *_SECTION_ALIASES.get(prefix, ())]
+        sections = []
         for name in names:
-            for key in (name, name.replace("-", "_")):
+            for key in dict.fromkeys((name, name.replace("-", "_"))):
                 section = self.config.get(key)
-                if isinstance(section, dict) and section.get("enabled") is False:
-                    return True
-        return False
+                if isinstance(section, dict):
+                    sections.append(section)
+        return sections
+
+    def _drop_linter_ignored(self, violations: list[Violation]) -> list[Violation]:
+        """Apply each linter's documented `ignore` patterns uniformly to every rule.
+
+        Rules may also filter on their own; here every documented pattern form is honoured
+        for every linter, against the path inside the project.
+        """
+        return [v for v in violations if not self._is_linter_ignored(v)]
+
+    def _is_linter_ignored(self, violation: Violation) -> bool:
+        """Check a violation's file against the `ignore` list of its linter's section."""
+        patterns = [
+            str(pattern)
+            for section in self._rule_sections(violation.rule_id)
+            if isinstance(section.get("ignore"), list)
+            for pattern in section["ignore"]
+        ]
+        if not patterns:
+            return False
+        return is_ignored_path(relative_to_root(violation.file_path, self.project_root), patterns)
 
     def _drop_suppressed(
         self, violations: list[Violation], context: BaseLintContext
@@ -473,7 +500,7 @@ class Orchestrator:  # thailint: ignore[srp]
 
         # Call finalize() on all rules after processing all files
         for rule in self.registry.list_all():
-            violations.extend(rule.finalize())
+            violations.extend(self._drop_linter_ignored(rule.finalize()))
 
         return violations
 
@@ -556,7 +583,7 @@ class Orchestrator:  # thailint: ignore[srp]
         self._ensure_rules_discovered()
         violations: list[Violation] = []
         for rule in self.registry.list_all():
-            violations.extend(rule.finalize())
+            violations.extend(self._drop_linter_ignored(rule.finalize()))
         return violations
 
     def lint_directory_parallel(
